@@ -1,6 +1,8 @@
 package test
 
 import (
+	"time"
+	"fmt"
 	"io"
 
 	unixfsnode "github.com/ipfs/go-unixfsnode"
@@ -258,6 +260,77 @@ func VerifHostileFile() {
 		guarded("read", func() { _, _ = rs.Read(buf) })
 		guarded("read2", func() { _, _ = rs.Read(buf) })
 		verifrt.Reach("sought")
+	}
+	verifrt.Reach("end")
+}
+
+// VerifHostileDiamond (C13): a chain of D shards in which every shard links the next one
+// from two slots (the same child CID twice) and the last shard is empty — D+1 blocks, no
+// entries. Length, preload and iteration finish in work proportional to the blocks given
+// (symbolic run: interpreted-instruction budget linear in D; native replay: wall-clock bound
+// on a deeper chain), whatever the fanout.
+func VerifHostileDiamond() {
+	st := verifmodel.NewStore()
+	ls := st.LinkSystem()
+	unixfsnode.AddUnixFSReificationToLinkSystem(ls)
+	depth := verifrt.Param("depth", 12)
+	if verifrt.Native() {
+		depth = 26
+	}
+	fanout := []uint64{8, 256}[verifrt.Choose(2)]
+	pad := 1
+	if fanout == 256 {
+		pad = 2
+	}
+	bitfield := []byte{0x03} // slots 0 and 1
+	child := storeNode(ls, mkPBNode(true, shardData(fanout, nil, 0x22), nil))
+	if verifrt.Choose(2) == 1 {
+		// or an empty bitfield byte on the last shard
+		child = storeNode(ls, mkPBNode(true, shardData(fanout, []byte{0}, 0x22), nil))
+	}
+	for i := 0; i < depth; i++ {
+		links := []pbLinkSpec{
+			{hash: child, hasName: true, name: fmt.Sprintf("%0*X", pad, 0), hasTsize: true, tsize: 1},
+			{hash: child, hasName: true, name: fmt.Sprintf("%0*X", pad, 1), hasTsize: true, tsize: 1},
+		}
+		child = storeNode(ls, mkPBNode(true, shardData(fanout, bitfield, 0x22), links))
+	}
+	root, err := ls.Load(ipld.LinkContext{}, child, protoFor(child))
+	verifrt.Assert(err == nil, "harness:root-loads")
+	op := verifrt.Choose(3)
+	s0 := verifrt.Steps()
+	var t0 time.Time
+	if verifrt.Native() {
+		t0 = time.Now()
+	}
+	panicked, pv := verifrt.Catch(func() {
+		switch op {
+		case 0:
+			node, err := unixfsnode.Reify(ipld.LinkContext{}, root, ls)
+			if err == nil {
+				_ = node.Length()
+			}
+		case 1:
+			_, _ = ls.KnownReifiers["unixfs-preload"](ipld.LinkContext{}, root, ls)
+		default:
+			node, err := unixfsnode.Reify(ipld.LinkContext{}, root, ls)
+			if err == nil {
+				it := node.MapIterator()
+				for n := 0; !it.Done() && n < 4; n++ {
+					_, _, _ = it.Next()
+				}
+			}
+		}
+	})
+	if panicked {
+		verifrt.Event("panic: " + verifrt.PanicValueString(pv))
+	}
+	verifrt.Assert(!panicked, "hostile:diamond-no-panic")
+	if verifrt.Native() {
+		verifrt.Assert(time.Since(t0) < 5*time.Second, "hostile:diamond-bounded-work")
+	} else {
+		// (about 6000 interpreted instructions per shard on the unchanged tree)
+		verifrt.Assert(verifrt.Steps()-s0 <= 40000*(depth+1), "hostile:diamond-bounded-work")
 	}
 	verifrt.Reach("end")
 }
